@@ -48,7 +48,7 @@ r("C17", E2, "runtime monitor: freshly initialised market (real initialize_marke
 r("C18", E2, "runtime monitor: role store vs set-of-grants reference model (direct and instruction level)",
   "Exploration over random enable/disable/grant/revoke/has sequences up to the 32-role / 64-member capacities, with and without pending cluster restart.", TB_SVM)
 r("C19", E2, "runtime monitor: authority-mutation replay of traced successful transactions (role revoked / stranger / other-role holder)",
-  "Exploration: every privileged instruction of the store, treasury, timelock, liquidity-provider and competition programs that a traced workload executed successfully (133 of 137 at the time of writing; per-program lists in the evidence) is replayed from its pre-state with mutated authority (required role revoked through the real revoke_role / stranger / holder of every other role incl. RESTART_ADMIN) and must be rejected; instructions without a positive scenario are listed as uncovered in the evidence, never counted as held; a drift between the hand-written privilege tables and the #[program] modules makes the run inconclusive.", TB_SVM + "; privilege table hand-written from the instruction docs")
+  "Exploration: every privileged instruction of the store, treasury, timelock, liquidity-provider and competition programs that a traced workload executed successfully (136 of 140 at the time of writing; per-program lists in the evidence) is replayed from its pre-state with mutated authority (required role revoked through the real revoke_role / stranger / holder of every other role incl. RESTART_ADMIN / for ownership-bound instructions a stranger equipped with its own user account) and must be rejected; instructions without a positive scenario are listed as uncovered in the evidence, never counted as held; a drift between the hand-written privilege tables and the #[program] modules makes the run inconclusive.", TB_SVM + "; privilege table hand-written from the instruction docs")
 r("C20", E2, "runtime monitor: keeper permission policy reference vs real update_market_config(_flag/_with_buffer)",
   "Exploration over all keys and flags, updatable-permission changes, four actor classes, buffers mixing entries, expired buffers.", TB_SVM)
 r("C21", E2, "runtime monitor: overlay reference model vs the real RevertibleMarket buffer (hooked constructor)",
